@@ -1,7 +1,8 @@
-(** C11 - Stream combinators and generators satisfy their defining equations. (first stage)
+(** C11 - Stream combinators and generators satisfy their defining equations.
     Model: Core/Natives.v (mirrors the native limit/skip/first/last of jaq-core/src/funs.rs). *)
 From Coq Require Import ZArith Bool List.
-From JaqV Require Import Base.Stream Val.Num Val.Val Core.Natives Proofs.StreamLaws.
+From JaqV Require Import Base.Bytes Base.Stream Val.Num Val.Val Core.Syntax Core.Natives Core.Run Proofs.StreamLaws Proofs.FoldLaws.
+From JaqV Require Proofs.CompileCorrect.
 Local Open Scope Z_scope.
 
 (** limit(n; f) followed by skip(n; f) reproduces f: for every machine-integer count and every stream,
@@ -33,3 +34,39 @@ Example limit_skip_example :
   collect (sapp (limit (vint 2) (fun _ => of_list (1 :: 2 :: 3 :: nil))) (fun _ => skip (vint 2) (of_list (1 :: 2 :: 3 :: nil))))
   = (1 :: 2 :: 3 :: nil, FEnd).
 Proof. reflexivity. Qed.
+
+(** ** reduce and foreach are their nested-pipe expansions *)
+(** for every output of init, the interpreter folds over the outputs of the generator; [fold_go step emit fin] is the manual's
+    expansion:  on y, k (the generator's first output and the rest)   step y acc | (emit y ., <the rest on .>)
+    and [fin acc] at the end - for every number of outputs of the update and of the projection, and the error of the
+    generator ends the fold. *)
+Theorem fold_expansion : forall d nr defs fuel xs init upd ft c v,
+  run d nr defs (S (S fuel)) (KFold xs PatVar init upd ft) c v
+  = sbind (run d nr defs (S fuel) init c v)
+      (CompileCorrect.fold_go (fun y acc => run d nr defs (S fuel) upd (cons_var y c) acc)
+         (emit_of d nr defs (S fuel) ft c) (fin_of ft) (run d nr defs fuel xs c v)).
+Proof. exact FoldLaws.fold_expansion. Qed.
+Print Assumptions fold_expansion.
+
+Theorem fold_unrolls : forall step emit fin,
+  (forall acc, CompileCorrect.fold_go step emit fin SNil acc = fin acc)
+  /\ (forall y k acc, CompileCorrect.fold_go step emit fin (SCons y k) acc
+                      = sbind (step y acc) (fun z => sapp (emit y z) (fun _ => CompileCorrect.fold_go step emit fin (k tt) z)))
+  /\ (forall e acc, CompileCorrect.fold_go step emit fin (SExn e) acc = SExn e).
+Proof. exact FoldLaws.fold_go_unroll. Qed.
+Print Assumptions fold_unrolls.
+
+(** reduce over a generator with the outputs ys:  init | (y1 as $x | upd) | (y2 as $x | upd) | ... *)
+Theorem reduce_is_nested_pipes : forall d nr defs fuel xs init upd c v ys, run d nr defs fuel xs c v = of_list ys ->
+  run d nr defs (S (S fuel)) (KFold xs PatVar init upd Reduce) c v
+  = sbind (run d nr defs (S fuel) init c v) (reduce_pipes (fun y acc => run d nr defs (S fuel) upd (cons_var y c) acc) ys).
+Proof. exact FoldLaws.reduce_is_nested_pipes. Qed.
+Print Assumptions reduce_is_nested_pipes.
+
+(** ** range/3 on machine integers with a positive step: exactly the arithmetic progression below the bound *)
+Theorem range_is_the_progression : forall n a b c fuel, 0 < c ->
+  (forall i, (i < n)%nat -> a + Z.of_nat i * c < b) -> b <= a + Z.of_nat n * c ->
+  (forall i, (i <= n)%nat -> in_isize (a + Z.of_nat i * c) = true) -> (n < fuel)%nat ->
+  range fuel (vint a) (vint b) (vint c) = of_list (map (fun i => vint (a + Z.of_nat i * c)) (seq 0 n)).
+Proof. exact FoldLaws.range_up. Qed.
+Print Assumptions range_is_the_progression.
